@@ -26,6 +26,7 @@ mod vpairs;
 mod virev;
 mod vrun;
 mod vstshapes;
+mod enumops;
 mod vtxev;
 mod vval;
 
@@ -713,6 +714,32 @@ pub fn run(args: &Args, out: &mut Out) {
             }
             if out.oracle_fail > before {
                 hist.add(&format!("vstshape-oracle-fail:{}", shape));
+            }
+        }
+    }
+    // enum operands of binary operations: done in the enum's underlying type since fix 80dd7f9 (every tier)
+    {
+        let grid = vrun::parse_vvectors(&enumops::grid_text()).unwrap_or_default();
+        for (shape, src) in enumops::stream() {
+            let before = out.oracle_fail;
+            let mut arng = Rng::new(1);
+            let mut h2 = Hist::default();
+            if let Err(pn) = guard(|| vrun::vrun_program(&src, Some(("f1", &grid)), grid.len(), &mut arng, out, &mut h2)) {
+                hist.add("harness-panic");
+                out.case(&format!("C01.vfn\t{}\tf1\t{}\t-\t-", one_line(&src), enumops::grid_text()), "harness-panic", &format!("SKIP:harness panic {}", pn));
+            }
+            hist.add("enumop");
+            if h2.0.contains_key("v:skip:front-end") {
+                hist.add(&format!("enumop-rejected-by-front-end:{}", shape));
+            }
+            if h2.0.keys().any(|k| k.starts_with("v:text-unsupported") || k.starts_with("v:unsupported")) {
+                hist.add(&format!("enumop-unsupported:{}", shape));
+            }
+            if h2.0.contains_key("v:vector:none") {
+                hist.add(&format!("enumop-some-vector-undefined:{}", shape));
+            }
+            if out.oracle_fail > before {
+                hist.add(&format!("enumop-oracle-fail:{}", shape));
             }
         }
     }
